@@ -1,6 +1,8 @@
 (* CorrC14.v — correspondence checker for C14: evaluates the Transform.v models on the
-   inputs the Go harness ran and compares with the observed outputs. *)
-From Verif Require Import Base Transform.
+   inputs the Go harness ran and compares with the observed outputs.  lowercase / uppercase go through
+   the regenerated Unicode case tables (CaseMap.v); on ASCII values that is Transform.t_lowercase /
+   t_uppercase (CaseMapProofs.apply_tu_ascii). *)
+From Verif Require Import Base Transform CaseMap.
 Open Scope N_scope.
 
 Inductive case :=
@@ -15,16 +17,17 @@ Fixpoint list_bytes_eqb (a b : list bytes) : bool :=
   | _, _ => false
   end.
 
-Definition ok (tbl : N -> option N) (c : case) : bool :=
+Definition ok (tbl : N -> option N) (lo up : list case_range) (c : case) : bool :=
   match c with
   | CU i o ch =>
     let r := t_url_decode_uni tbl i in bytes_eqb (t_out r) o && Bool.eqb (t_changed r) ch && negb (t_err r)
   | CS t i o ch e =>
-    let r := apply_t t i in
+    let r := apply_tu lo up t i in
     bytes_eqb (t_out r) o && Bool.eqb (t_changed r) ch && Bool.eqb (t_err r) e
   | CL ts i o n m =>
-    let '(o', n') := exec_tfs ts i in
-    bytes_eqb o' o && Nat.eqb n' n && list_bytes_eqb (exec_tfs_multi ts i) m
+    let '(o', n') := exec_tfs_g (apply_tu lo up) ts i in
+    bytes_eqb o' o && Nat.eqb n' n && list_bytes_eqb (exec_tfs_multi_g (apply_tu lo up) ts i) m
   end.
 
-Definition mismatches (tbl : N -> option N) (l : list case) : list nat := mismatches_of (ok tbl) l.
+Definition mismatches (tbl : N -> option N) (lo up : list case_range) (l : list case) : list nat :=
+  mismatches_of (ok tbl lo up) l.
